@@ -24,7 +24,7 @@ Print Assumptions C11_part_present_and_linked.
    per-paragraph tapes of the session-rejected result = those of the input) *)
 Theorem C11_story_frame : forall d author ts edits orc,
   let nd := normalize_doc d in
-  let '(d', _, _, _) := apply_edits d author ts edits orc in (wf_ids nd -> RelG (scan_ids nd) (next_comment_id nd) (d_next_uid nd) nd d').
+  let '(d', _, _, _, nn) := apply_edits d author ts edits orc in (wf_ids nd -> nn = 0 -> RelG (scan_ids nd) (next_comment_id nd) (d_next_uid nd) nd d').
 Proof. intros d author ts edits orc. pose proof (engine_contract d author ts edits orc) as H. cbn zeta in *.
-  destruct (apply_edits d author ts edits orc) as [[[d' ap] sk] out]. exact (proj1 H). Qed.
+  destruct (apply_edits d author ts edits orc) as [[[[d' ap] sk] out] nn]. exact (proj1 H). Qed.
 Print Assumptions C11_story_frame.
